@@ -54,7 +54,7 @@ theorem inv2_step {c : Cfg} (hw : c.wiring = Wiring.std) (hwf : WfCfg c) {s s' :
   | workerPost w => obtain ⟨_, _, _, _, rfl⟩ := inv_workerPost hs; exact inv2_frame h rfl
   | workerDiePost w => obtain ⟨_, _, _, rfl⟩ := inv_workerDiePost hw hs; exact inv2_frame h rfl
   | workerExit w => obtain ⟨_, _, rfl⟩ := inv_workerExit hs; exact inv2_frame h rfl
-  | cancel => obtain ⟨_, rfl⟩ := inv_cancel hs; exact inv2_frame h rfl
+  | cancel => obtain ⟨_, _, rfl⟩ := inv_cancel hs; exact inv2_frame h rfl
   | loopEnq =>
     obtain ⟨j, rest, hp, _, he, rfl⟩ := inv_loopEnq hs
     have hf := h1.fifo hp
@@ -319,7 +319,7 @@ theorem inv3_step {c : Cfg} (hw : c.wiring = Wiring.std) (hwf : WfCfg c) {s s' :
     exact inv3_frame (es := [Ev.waitReturned [.ctxErr]]) h (fun _ => rfl) (fun _ => rfl) (fun _ => rfl) rfl rfl rfl (by simp [Ev.isStarted])
   | callerRetFin =>
     obtain ⟨_, _, _, rfl⟩ := inv_callerRetFin hs
-    exact inv3_frame (es := [Ev.waitReturned (retVal s)]) h (fun _ => rfl) (fun _ => rfl) (fun _ => rfl) rfl rfl rfl (by simp [Ev.isStarted])
+    exact inv3_frame (es := [Ev.waitReturned (retVal c s)]) h (fun _ => rfl) (fun _ => rfl) (fun _ => rfl) rfl rfl rfl (by simp [Ev.isStarted])
   | loopEnqClosed =>
     obtain ⟨_, _, _, _, rfl⟩ := inv_loopEnqClosed hs
     exact inv3_frame (es := []) h (by simp [closed, job]) (by simp [closed, job]) (by simp [closed, job]) rfl rfl (by simp) (by simp)
@@ -333,8 +333,8 @@ theorem inv3_step {c : Cfg} (hw : c.wiring = Wiring.std) (hwf : WfCfg c) {s s' :
     obtain ⟨_, _, _, rfl⟩ := inv_loopClose hw hs
     exact inv3_frame (es := [Ev.loopExit]) h (by simp [job]) (by simp [job]) (by simp [job]) rfl rfl rfl (by simp [Ev.isStarted])
   | cancel =>
-    obtain ⟨_, rfl⟩ := inv_cancel hs
-    exact inv3_frame (es := [Ev.cancelled]) h (fun _ => rfl) (fun _ => rfl) (fun _ => rfl) rfl rfl rfl (by simp [Ev.isStarted])
+    obtain ⟨_, _, rfl⟩ := inv_cancel hs
+    exact inv3_frame (es := [Ev.cancelled _]) h (fun _ => rfl) (fun _ => rfl) (fun _ => rfl) rfl rfl rfl (by simp [Ev.isStarted])
   | loopEnq =>
     obtain ⟨j, rest, hp, _, he, rfl⟩ := inv_loopEnq hs
     have hf := h1.fifo hp
@@ -540,11 +540,11 @@ theorem inv3_step {c : Cfg} (hw : c.wiring = Wiring.std) (hwf : WfCfg c) {s s' :
     obtain ⟨j, hj, rfl⟩ := inv_workerEnd hs
     have hwlt := (List.getElem?_eq_some_iff.mp hj).1
     obtain ⟨g1, g2, g3, g4, g5, g6, g7⟩ := h
-    have hab : (afterBody s j o cancel).loop = s.loop ∧ (afterBody s j o cancel).ws = s.ws ∧
-        (afterBody s j o cancel).donec = s.donec ∧
-        ∃ es, (afterBody s j o cancel).log = s.log ++ (Ev.ended j o :: es) ∧ ∀ e ∈ es, e.isStarted = false := by
+    have hab : (afterBody c s j o cancel).loop = s.loop ∧ (afterBody c s j o cancel).ws = s.ws ∧
+        (afterBody c s j o cancel).donec = s.donec ∧
+        ∃ es, (afterBody c s j o cancel).log = s.log ++ (Ev.ended j o :: es) ∧ ∀ e ∈ es, e.isStarted = false := by
       unfold afterBody; split
-      · exact ⟨rfl, rfl, rfl, [Ev.cancelled], by simp, by simp [Ev.isStarted]⟩
+      · exact ⟨rfl, rfl, rfl, [Ev.cancelled (c.ctxOfJob j)], by simp, by simp [Ev.isStarted]⟩
       · exact ⟨rfl, rfl, rfl, [], by simp, by simp⟩
     obtain ⟨hl, hws, hdc, es, hlog, hes⟩ := hab
     have hes' : ∀ e ∈ Ev.ended j o :: es, e.isStarted = false := by
